@@ -1,17 +1,445 @@
-//! C05 — engine not implemented yet.
+//! C05 — execution and compilation are deterministic and reproducible.
+//! (a) order exploration: every order-exposing traversal of a hash collection in the bytecode
+//!     encoder (hooked through `verif_map`) is a choice point; all alternative orders are
+//!     explored depth-first as deviations from std order (bound 2) and the emitted container must
+//!     not change;
+//! (b) cross-process / cross-thread sweep: the same programs are compiled and run in several
+//!     independent OS processes and threads (each has its own hash seeds, address-space layout
+//!     and environment size); container bytes, per-cycle states, faults and runtime events must
+//!     be identical.
 
 use crate::fw::*;
-use crate::iso::WorkerFn;
-use serde_json::Value;
+use crate::iso::{self, Outcome, PoolCfg, WorkerFn};
+use serde_json::{json, Value};
+use std::cell::RefCell;
+use std::rc::Rc;
+use std::time::{Duration, Instant};
+use trust_runtime::harness::{bytecode_bytes_from_source, TestHarness};
+use trust_runtime::value::Duration as StDuration;
+use trust_runtime::verif_map::{install_policy, OrderPolicy};
 
-pub fn run(_ctx: &Ctx) -> EngineResult {
-    machinery("engine C05 not implemented")
+fn hash_bytes(b: &[u8]) -> u64 {
+    let mut h: u64 = 0xcbf29ce484222325;
+    for x in b {
+        h ^= *x as u64;
+        h = h.wrapping_mul(0x100000001b3);
+    }
+    h
 }
 
-pub fn check_case(_case: &Value) -> Vec<Violation> {
+/// A program with `k` of everything the encoder keeps hash maps for.
+pub fn wide_program_pub(k: usize) -> String {
+    wide_program(k)
+}
+
+fn wide_program(k: usize) -> String {
+    let mut s = String::new();
+    for i in 0..k {
+        s.push_str(&format!("TYPE S{i} :\nSTRUCT\n    a : INT;\n    b : ARRAY[0..{i}] OF DINT;\nEND_STRUCT\nEND_TYPE\n\n"));
+        s.push_str(&format!("TYPE E{i} : (Red{i}, Green{i}, Blue{i});\nEND_TYPE\n\n"));
+        s.push_str(&format!("INTERFACE I{i}\nMETHOD Get{i} : INT\nEND_METHOD\nEND_INTERFACE\n\n"));
+        s.push_str(&format!(
+            "FUNCTION F{i} : DINT\nVAR_INPUT x : DINT; y : DINT; END_VAR\nVAR t : DINT; END_VAR\n    FOR t := 0 TO 2 DO\n        F{i} := F{i} + x * {} + y;\n    END_FOR;\nEND_FUNCTION\n\n",
+            i + 1
+        ));
+        s.push_str(&format!(
+            "FUNCTION_BLOCK FB{i} IMPLEMENTS I{i}\nVAR_INPUT d : INT; END_VAR\nVAR_OUTPUT total : INT; END_VAR\nVAR s : S{i}; e : E{i}; END_VAR\nMETHOD PUBLIC Get{i} : INT\n    Get{i} := total;\nEND_METHOD\nMETHOD PUBLIC Bump{i} : INT\nVAR_INPUT amt : INT; END_VAR\n    total := total + amt;\n    Bump{i} := total;\nEND_METHOD\n    total := total + d;\n    s.a := total;\nEND_FUNCTION_BLOCK\n\n"
+        ));
+    }
+    s.push_str("CONFIGURATION Conf\nVAR_GLOBAL\n");
+    for i in 0..k {
+        s.push_str(&format!("    g{i} : DINT := {i};\n"));
+    }
+    s.push_str("END_VAR\n");
+    for i in 0..k.min(3) {
+        s.push_str(&format!("TASK T{i} (INTERVAL := T#{}ms, PRIORITY := {});\n", 10 * (i + 1), i % 2));
+    }
+    for i in 0..k {
+        if i < 3 {
+            s.push_str(&format!("PROGRAM P{i} WITH T{i} : Main{i};\n"));
+        } else {
+            s.push_str(&format!("PROGRAM P{i} : Main{i};\n"));
+        }
+    }
+    s.push_str("END_CONFIGURATION\n\n");
+    for i in 0..k {
+        s.push_str(&format!("PROGRAM Main{i}\nVAR\n    fb : FB{i};\n    r : DINT;\n    q : INT;\nEND_VAR\n"));
+        s.push_str(&format!("    fb(d := {});\n    q := fb.Bump{i}(amt := 2);\n    r := F{i}(x := g{i}, y := r);\n    g{i} := g{i} + 1;\nEND_PROGRAM\n\n", i + 1));
+    }
+    s
+}
+
+fn corpus(ctx: &Ctx) -> Vec<(String, String)> {
+    let mut out: Vec<(String, String)> = Vec::new();
+    for k in [1usize, 3, 5] {
+        out.push((format!("wide{k}"), wide_program(k)));
+    }
+    out.push(("c17-program".into(), super::c17::PROGRAM.to_string()));
+    // every repository file that compiles on its own
+    for (name, text) in crate::corpus::st_files(&ctx.repo_dir) {
+        out.push((name, text));
+    }
+    // a slice of the ST-core corpus: the first case of every feature
+    let mut seen = std::collections::HashSet::new();
+    for c in crate::stcore::families::corpus(false) {
+        if seen.insert((c.family, c.feature.clone())) {
+            out.push((format!("stcore:{}:{}", c.family, c.feature), c.text()));
+        }
+    }
+    out
+}
+
+/// Compile + run observation of one program in this process/thread.
+fn observe(text: &str) -> Value {
+    let r = catch(|| {
+        let bytes = match bytecode_bytes_from_source(text) {
+            Ok(b) => b,
+            Err(e) => return json!({"compile_error": e.to_string()}),
+        };
+        let mut trace = Vec::new();
+        if let Ok(mut h) = TestHarness::from_source(text) {
+            let control = h.runtime_mut().enable_debug();
+            for _ in 0..3 {
+                h.advance_time(StDuration::from_millis(10));
+                let res = h.cycle();
+                let events = control.drain_runtime_events();
+                trace.push(json!({
+                    "errors": res.errors.iter().map(|e| format!("{e:?}")).collect::<Vec<_>>(),
+                    "state": hash_bytes(format!("{:?}", crate::dump::dump_runtime(h.runtime())).as_bytes()),
+                    "outputs": hash_bytes(h.runtime().io().outputs()),
+                    "events": hash_bytes(format!("{events:?}").as_bytes()),
+                    "n_events": events.len(),
+                }));
+                if !res.errors.is_empty() {
+                    break;
+                }
+            }
+        }
+        json!({"bytes": hash_bytes(&bytes), "len": bytes.len(), "trace": trace})
+    });
+    match r {
+        Ok(v) => v,
+        Err(m) => json!({"panic": m}),
+    }
+}
+
+pub fn worker_proc(case: &Value) -> Value {
+    let texts = case["texts"].as_array().cloned().unwrap_or_default();
+    let mut out = Vec::new();
+    for t in texts {
+        let text = t.as_str().unwrap_or("").to_string();
+        // main worker thread and a fresh thread: std's RandomState keys are per thread
+        let a = observe(&text);
+        let text2 = text.clone();
+        let b = std::thread::spawn(move || observe(&text2)).join().unwrap_or(json!({"panic": "thread"}));
+        out.push(json!([a, b]));
+    }
+    json!(out)
+}
+
+// ---------------------------------------------------------------------------------------------
+// (a) order exploration
+// ---------------------------------------------------------------------------------------------
+
+#[derive(Default)]
+struct Rec {
+    prefix: Vec<usize>,
+    /// (chosen alternative, number of alternatives, len, site)
+    points: Vec<(usize, usize, usize, &'static str)>,
+}
+
+struct Policy(Rc<RefCell<Rec>>);
+
+fn n_alternatives(len: usize) -> usize {
+    match len {
+        0 | 1 => 1,
+        2 => 2,
+        3 => 6,
+        4 => 24,
+        n => n + 1, // identity, reversed, rotations 1..n-1
+    }
+}
+
+fn nth_perm(len: usize, mut k: usize) -> Vec<usize> {
+    // k-th permutation in lexicographic order (k = 0: identity)
+    let mut items: Vec<usize> = (0..len).collect();
+    let mut fact: Vec<usize> = vec![1; len + 1];
+    for i in 1..=len {
+        fact[i] = fact[i - 1] * i;
+    }
+    let mut out = Vec::with_capacity(len);
+    for i in (0..len).rev() {
+        let f = fact[i];
+        let idx = k / f;
+        k %= f;
+        out.push(items.remove(idx));
+    }
+    out
+}
+
+fn alternative(len: usize, alt: usize) -> Vec<usize> {
+    if len <= 4 {
+        return nth_perm(len, alt);
+    }
+    match alt {
+        0 => (0..len).collect(),
+        1 => (0..len).rev().collect(),
+        r => (0..len).map(|i| (i + r - 1) % len).collect(),
+    }
+}
+
+impl OrderPolicy for Policy {
+    fn order(&mut self, site: &'static str, len: usize) -> Vec<usize> {
+        let mut rec = self.0.borrow_mut();
+        let n = n_alternatives(len);
+        if n <= 1 {
+            return (0..len).collect();
+        }
+        let k = rec.points.len();
+        let alt = rec.prefix.get(k).copied().unwrap_or(0).min(n - 1);
+        rec.points.push((alt, n, len, site));
+        alternative(len, alt)
+    }
+}
+
+struct OrderStats {
+    executions: u64,
+    traversals: u64,
+    max_points: usize,
+    sites: std::collections::BTreeMap<String, u64>,
+    violation: Option<(Vec<usize>, String)>,
+    capped: bool,
+}
+
+fn explore_orders(text: &str, bound: usize, deadline: Instant) -> Result<OrderStats, String> {
+    let baseline = match catch(|| bytecode_bytes_from_source(text)) {
+        Ok(Ok(b)) => b,
+        Ok(Err(_)) => return Err("does not compile".into()),
+        Err(m) => return Err(format!("panic: {m}")),
+    };
+    let mut st = OrderStats { executions: 0, traversals: 0, max_points: 0, sites: Default::default(), violation: None, capped: false };
+    // work items: (prefix, deviations used)
+    let mut stack: Vec<(Vec<usize>, usize)> = vec![(Vec::new(), 0)];
+    while let Some((prefix, used)) = stack.pop() {
+        if Instant::now() >= deadline {
+            st.capped = true;
+            break;
+        }
+        let rec = Rc::new(RefCell::new(Rec { prefix: prefix.clone(), points: Vec::new() }));
+        let prev = install_policy(Some(Box::new(Policy(rec.clone()))));
+        let res = catch(|| bytecode_bytes_from_source(text));
+        install_policy(prev);
+        st.executions += 1;
+        let rec = rec.borrow();
+        st.max_points = st.max_points.max(rec.points.len());
+        if prefix.is_empty() {
+            st.traversals = rec.points.len() as u64;
+            for p in &rec.points {
+                *st.sites.entry(p.3.to_string()).or_insert(0) += 1;
+            }
+        }
+        let same = matches!(&res, Ok(Ok(b)) if *b == baseline);
+        if !same && st.violation.is_none() {
+            let what = match res {
+                Ok(Ok(b)) => format!("container differs from the std-order container ({} vs {} bytes, first difference at byte {})", b.len(), baseline.len(), b.iter().zip(&baseline).position(|(x, y)| x != y).unwrap_or(b.len().min(baseline.len()))),
+                Ok(Err(e)) => format!("compilation fails under this order: {e}"),
+                Err(m) => format!("panic under this order: {m}"),
+            };
+            let choices: Vec<usize> = rec.points.iter().map(|p| p.0).collect();
+            st.violation = Some((choices, what));
+            break;
+        }
+        if used < bound {
+            for i in prefix.len()..rec.points.len() {
+                let n = rec.points[i].1;
+                for alt in 1..n {
+                    let mut p: Vec<usize> = rec.points[..i].iter().map(|x| x.0).collect();
+                    p.push(alt);
+                    stack.push((p, used + 1));
+                }
+            }
+        }
+    }
+    Ok(st)
+}
+
+fn pool(threads: usize, pad: usize) -> PoolCfg {
+    PoolCfg {
+        worker: "c05_proc",
+        procs: threads,
+        rlimit_as: 0,
+        per_case: Duration::from_secs(300),
+        deadline: None,
+        // different environment sizes shift the initial stack / heap layout
+        env: vec![("TV_C05_PAD".into(), "x".repeat(pad))],
+        stack: 8 << 20,
+    }
+}
+
+pub fn run(ctx: &Ctx) -> EngineResult {
+    quiet_panics();
+    let mut rep = Report::new("exploration");
+    let progs = corpus(ctx);
+    let deadline = Instant::now() + Duration::from_secs(ctx.tier.pick(25, 300));
+
+    // (a) order exploration, in-process, parallel over programs
+    let bound = ctx.tier.pick(2usize, 3usize);
+    let results = crate::par::par_map(&progs, ctx.threads, 8 << 20, Some(deadline), |_, (name, text)| (name.clone(), explore_orders(text, bound, deadline)));
+    let mut order_execs = 0u64;
+    let mut traversals = 0u64;
+    let mut compiled = 0u64;
+    let mut max_points = 0usize;
+    let mut sites: std::collections::BTreeMap<String, u64> = Default::default();
+    let mut exhaustive = true;
+    for (r, (_, text)) in results.into_iter().zip(&progs) {
+        let Some((name, r)) = r else {
+            exhaustive = false;
+            continue;
+        };
+        let Ok(st) = r else { continue };
+        compiled += 1;
+        order_execs += st.executions;
+        traversals += st.traversals;
+        max_points = max_points.max(st.max_points);
+        for (k, v) in st.sites {
+            *sites.entry(k).or_insert(0) += v;
+        }
+        if st.capped {
+            exhaustive = false;
+        }
+        if let Some((choices, what)) = st.violation {
+            rep.violation(Violation {
+                signature: "C05/order-dependent-container/encoder-hash-iteration".into(),
+                what: format!("program {name}: {what}"),
+                case: json!({"kind": "order", "name": name, "text": text, "choices": choices}),
+            });
+        }
+    }
+    if compiled < 20 {
+        return machinery(format!("only {compiled} corpus programs compile"));
+    }
+    for k in [1usize, 3, 5] {
+        if bytecode_bytes_from_source(&wide_program(k)).is_err() {
+            return machinery(format!("generated wide program k={k} does not compile"));
+        }
+    }
+
+    // (b) cross-process / cross-thread sweep
+    let texts: Vec<Value> = progs.iter().map(|p| json!(p.1)).collect();
+    let nproc = ctx.tier.pick(4usize, 8usize);
+    let mut per_proc: Vec<Vec<Value>> = Vec::new();
+    let chunks: Vec<Value> = texts.chunks(40).map(|c| json!({"texts": c})).collect();
+    std::thread::scope(|s| -> Result<(), Machinery> {
+        let handles: Vec<_> = (0..nproc)
+            .map(|p| {
+                let chunks = &chunks;
+                s.spawn(move || iso::run_pool(&pool(2, 1 + 977 * p), chunks))
+            })
+            .collect();
+        for h in handles {
+            let outs = h.join().map_err(|_| Machinery("sweep thread panicked".into()))?.map_err(Machinery)?;
+            let mut flat = Vec::new();
+            for o in outs {
+                match o {
+                    Some(Outcome::Ok(v)) => flat.extend(v.as_array().cloned().unwrap_or_default()),
+                    other => return Err(Machinery(format!("sweep worker failed: {other:?}"))),
+                }
+            }
+            per_proc.push(flat);
+        }
+        Ok(())
+    })?;
+    let mut compared = 0u64;
+    let mut observations = 0u64;
+    let mut distinct_programs = std::collections::HashSet::new();
+    for (i, (name, text)) in progs.iter().enumerate() {
+        let reference = &per_proc[0][i][0];
+        if reference.get("compile_error").is_some() {
+            continue;
+        }
+        distinct_programs.insert(hash_bytes(text.as_bytes()));
+        compared += 1;
+        for (p, proc_obs) in per_proc.iter().enumerate() {
+            for (t, obs) in proc_obs[i].as_array().cloned().unwrap_or_default().iter().enumerate() {
+                observations += 1;
+                if obs != reference {
+                    let clause = if obs.get("panic").is_some() || reference.get("panic").is_some() {
+                        "panic"
+                    } else if obs["bytes"] != reference["bytes"] || obs["len"] != reference["len"] {
+                        "container-differs"
+                    } else {
+                        "trace-differs"
+                    };
+                    rep.violation(Violation {
+                        signature: format!("C05/{clause}/across-{}", if p == 0 { "threads" } else { "processes" }),
+                        what: format!("program {name}: process {p} thread {t} observed {obs}, process 0 thread 0 observed {reference}"),
+                        case: json!({"kind": "sweep", "name": name, "text": text}),
+                    });
+                }
+            }
+        }
+    }
+    rep.sample(json!({"program": progs[0].0, "text_head": progs[0].1.chars().take(300).collect::<String>()}));
+    rep.sample(json!({"program": progs[progs.len() - 1].0, "text": progs[progs.len() - 1].1}));
+    rep.set("evaluations", order_execs + observations);
+    rep.set("distinct_nontrivial", distinct_programs.len() as u64);
+    rep.set("rule", "corpus = generated wide programs (k types/interfaces/functions/FBs with methods/programs/tasks, k in {1,3,5}) + every repository .st file that compiles alone + the first case of every ST-core feature. (a) every order-exposing hash-collection traversal in the encoder is a choice point: all permutations for <= 4 entries, identity/reversed/all rotations beyond; explored depth-first to the deviation bound; (b) every program compiled and run for 3 cycles in N processes x 2 threads. Non-trivial = distinct program texts that compile.");
+    rep.set("programs_compiling", compiled);
+    rep.set("order_executions", order_execs);
+    rep.set("order_deviation_bound", bound as u64);
+    rep.set("order_exposing_traversals_reached_in_encoder", traversals);
+    rep.set("order_exposing_sites", json!(sites));
+    rep.set("max_choice_points_per_compile", max_points as u64);
+    rep.set("sweep_processes", nproc as u64);
+    rep.set("sweep_programs_compared", compared);
+    rep.set("sweep_observations", observations);
+    rep.set("exhaustive", exhaustive);
+    if traversals == 0 {
+        rep.assume("the encoder currently performs no order-exposing traversal of its hash collections (0 choice points): the order family holds trivially and exists to catch a change that starts iterating one");
+    }
+    rep.assume("hash seeds and address-space layouts cannot be enumerated: part (b) is a fixed sweep over N processes x 2 threads, part (a) is exhaustive over iteration orders of the hooked encoder collections only");
+    Ok(rep)
+}
+
+pub fn check_case(case: &Value) -> Vec<Violation> {
+    let text = case["text"].as_str().unwrap_or("");
+    let name = case["name"].as_str().unwrap_or("");
+    if case["kind"] == "order" {
+        let choices: Vec<usize> = case["choices"].as_array().map(|a| a.iter().map(|x| x.as_u64().unwrap_or(0) as usize).collect()).unwrap_or_default();
+        let Ok(Ok(baseline)) = catch(|| bytecode_bytes_from_source(text)) else { return Vec::new() };
+        let rec = Rc::new(RefCell::new(Rec { prefix: choices, points: Vec::new() }));
+        let prev = install_policy(Some(Box::new(Policy(rec))));
+        let res = catch(|| bytecode_bytes_from_source(text));
+        install_policy(prev);
+        if !matches!(&res, Ok(Ok(b)) if *b == baseline) {
+            return vec![Violation {
+                signature: "C05/order-dependent-container/encoder-hash-iteration".into(),
+                what: format!("program {name}: container depends on the iteration order of an encoder hash collection"),
+                case: case.clone(),
+            }];
+        }
+        return Vec::new();
+    }
+    // sweep: two fresh processes
+    let chunks = vec![json!({"texts": [text]})];
+    let mut obs = Vec::new();
+    for p in 0..3 {
+        if let Ok(outs) = iso::run_pool(&pool(1, 1 + 977 * p), &chunks) {
+            if let Some(Some(Outcome::Ok(v))) = outs.into_iter().next() {
+                obs.extend(v[0].as_array().cloned().unwrap_or_default());
+            }
+        }
+    }
+    if obs.windows(2).any(|w| w[0] != w[1]) {
+        return vec![Violation {
+            signature: "C05/container-or-trace-differs/across-processes".into(),
+            what: format!("program {name}: observations differ between independent processes/threads"),
+            case: case.clone(),
+        }];
+    }
     Vec::new()
 }
 
 pub fn workers() -> Vec<(&'static str, WorkerFn)> {
-    Vec::new()
+    vec![("c05_proc", worker_proc as iso::WorkerFn)]
 }
